@@ -329,6 +329,8 @@ func (c *Client) SetRedirectPolicy(policies ...RedirectPolicy) *Client {
 	if len(policies) == 0 {
 		return c
 	}
+	// the policies in force are the ones given now: a call f(s...) passes the caller's slice itself
+	policies = append([]RedirectPolicy(nil), policies...)
 	c.httpClient.CheckRedirect = func(req *http.Request, via []*http.Request) error {
 		for _, f := range policies {
 			if f == nil {
